@@ -72,13 +72,17 @@ impl GenericSingleObjectWriter {
         if !Self::HEADER_LENGTH_RANGE.contains(&original_length) {
             Err(Details::IllegalSingleObjectWriterState.into())
         } else {
-            write_value_ref_owned_resolved(&self.resolved, v, &mut self.buffer)?;
-            writer
-                .write_all(&self.buffer)
-                .map_err(Details::WriteBytes)?;
+            let result = write_value_ref_owned_resolved(&self.resolved, v, &mut self.buffer)
+                .and_then(|_| {
+                    writer
+                        .write_all(&self.buffer)
+                        .map_err(|e| Details::WriteBytes(e).into())
+                });
             let len = self.buffer.len();
+            // Always drop the datum again, also when encoding or the sink failed: otherwise it
+            // would be prepended to the next message.
             self.buffer.truncate(original_length);
-            Ok(len)
+            result.map(|()| len)
         }
     }
 
